@@ -138,7 +138,16 @@ func (vc *FnVC) resolveCallee(cc *ssa.CallCommon) (*ssa.Function, *FuncContract)
 	if f == nil {
 		return nil, nil
 	}
-	return f, vc.w.contractFor(f)
+	if ct := vc.w.contractFor(f); ct != nil {
+		return f, ct
+	}
+	// trusted contracts for functions outside thunder live in the caller's contract file, keyed pkgname.Func
+	if vc.cf != nil && f.Pkg != nil {
+		if ct := vc.cf.Funcs[f.Pkg.Pkg.Name()+"."+shortFuncName(f)]; ct != nil && ct.Trusted {
+			return f, ct
+		}
+	}
+	return f, nil
 }
 
 // call translates a call instruction; val is the ssa.Value receiving the result (nil for defer/go).
@@ -146,6 +155,9 @@ func (vc *FnVC) call(c ssa.CallInstruction, val *ssa.Call) {
 	cc := c.Common()
 	if b, ok := cc.Value.(*ssa.Builtin); ok {
 		vc.builtin(b, cc, val)
+		return
+	}
+	if vc.atomicOp(cc, val) {
 		return
 	}
 	sig := cc.Signature()
@@ -294,7 +306,9 @@ func (vc *FnVC) call(c ssa.CallInstruction, val *ssa.Call) {
 	if val != nil {
 		vc.lockHavoc(val)
 	}
+	vc.lastCalleeGhosts = calleeGhosts
 	vc.cur = vc.applyCallGhostsX(name, args, results, vc.cur, calleeGhosts)
+	vc.siteAssumes(name, ord, args, results)
 	if val != nil {
 		switch nres {
 		case 0:
@@ -331,6 +345,34 @@ func (vc *FnVC) siteAsserts(name string, ord int, pre *Mem, args []TV, pos token
 		}
 		vc.oblige("assert", fmt.Sprintf("assert@%s#%d", name, ord), vc.b(), tv.t, pos, ca.C.Text)
 		vc.assume(vc.b(), tv.t)
+	}
+}
+
+// siteAssumes: "call NAME[#k] assume E" - a rely condition about what the (opaque) callee and concurrently running
+// operations may have done; trusted, listed in the evidence.
+func (vc *FnVC) siteAssumes(name string, ord int, args, results []TV) {
+	if vc.ct == nil {
+		return
+	}
+	for _, ca := range vc.ct.CallAssume {
+		if ca.Callee != name || (ca.Ordinal != 0 && ca.Ordinal != ord) {
+			continue
+		}
+		vc.matchedSites["assume "+ca.Callee] = true
+		env := vc.newEnv(vc.cur, vc.mem0)
+		env.resolve = vc.blockResolver(vc.curBlock, vc.cur)
+		for i, a := range args {
+			env.names[fmt.Sprintf("arg%d", i)] = a
+		}
+		for i, r := range results {
+			env.names[fmt.Sprintf("ret%d", i)] = r
+		}
+		tv, err := env.tr(ca.C.E)
+		if err != nil {
+			panic(unsupported{fmt.Sprintf("call %s assume: %v", name, err)})
+		}
+		vc.assume(vc.b(), tv.t)
+		vc.trustedUsed[fmt.Sprintf("rely at call %s in %s: %s", name, vc.qualName(), ca.C.Text)] = true
 	}
 }
 
@@ -387,6 +429,48 @@ func (vc *FnVC) siteOrdinal(c ssa.CallInstruction, name string) int {
 		}
 	}
 	return vc.siteOrd[c]
+}
+
+// atomicOp: sync/atomic operations on a struct field or variable are single atomic steps on that location.
+func (vc *FnVC) atomicOp(cc *ssa.CallCommon, val *ssa.Call) bool {
+	fn, ok := cc.Value.(*ssa.Function)
+	if !ok || fn.Pkg == nil || fn.Pkg.Pkg.Path() != "sync/atomic" || len(cc.Args) == 0 {
+		return false
+	}
+	op := fn.Name()
+	for _, suf := range []string{"Int64", "Int32", "Uint64", "Uint32", "Uintptr"} {
+		op = strings.TrimSuffix(op, suf)
+	}
+	lv := vc.lvOf(cc.Args[0])
+	old := vc.define(vc.e.fresh("atomic_old"), vc.e.sortOf(lv.typ), vc.loadLV(lv, vc.cur))
+	set := func(t Term) {
+		if val != nil {
+			vc.setVal(val, t)
+		}
+	}
+	name := "atomic." + op
+	vc.callOrd[name]++
+	switch op {
+	case "Load":
+		set(old)
+	case "Store":
+		vc.cur = vc.storeLV(lv, vc.cur, vc.val(cc.Args[1]))
+	case "Swap":
+		vc.cur = vc.storeLV(lv, vc.cur, vc.val(cc.Args[1]))
+		set(old)
+	case "Add":
+		nv := app("+", old, vc.val(cc.Args[1]))
+		vc.cur = vc.storeLV(lv, vc.cur, nv)
+		set(nv)
+	case "CompareAndSwap":
+		okT := app("=", old, vc.val(cc.Args[1]))
+		vc.cur = vc.storeLV(lv, vc.cur, app("ite", okT, vc.val(cc.Args[2]), old))
+		set(okT)
+	default:
+		return false
+	}
+	vc.trustedUsed["sync/atomic operations are sequentially consistent single steps on their location"] = true
+	return true
 }
 
 func firstNonEmpty(a, b string) string {
@@ -615,6 +699,8 @@ func (vc *FnVC) builtin(b *ssa.Builtin, cc *ssa.CallCommon, val *ssa.Call) {
 		if val != nil {
 			vc.vals[val] = t
 		}
+		vc.callOrd["recover"]++
+		vc.cur = vc.applyCallGhostsX("recover", nil, []TV{{t: t, ty: tAny}}, vc.cur, nil)
 	case "print", "println":
 	case "close":
 	case "min", "max":
